@@ -40,6 +40,31 @@ def expand(expr: ast.AST, defs: dict[str, ast.AST], subst: dict[str, ast.AST] | 
     return _Expand(defs, subst).visit(copy.deepcopy(expr))
 
 
+def check_seal_is_last(run: Run, am: AstModel, seal: FuncInfo) -> None:
+    run.rule("R15.7", "the SEAL section is the last thing in the sealed text: the document seal_document hands to the emitter carries nothing that emit() writes after `sections` (today: trailing_comments) - such text would follow the SEAL section, be read back as part of it and be stripped before re-hashing, so the seal would not verify on the sealed file", 1)
+    from .c01 import PARTS
+
+    after_sections = PARTS[PARTS.index("sections") + 1:]
+    mod = seal.module
+    n = 0
+    for call, cls in am.constructions(seal):
+        if cls != "Document":
+            continue
+        kw = {k.arg: k.value for k in call.keywords}
+        secs = kw.get("sections")
+        if secs is None or "seal" not in ast.unparse(secs).lower():
+            continue  # not the copy that receives the SEAL section
+        n += 1
+        for f in after_sections:
+            v = kw.get(f)
+            empty = v is None or (isinstance(v, (ast.List, ast.Tuple)) and not v.elts) or (isinstance(v, ast.Constant) and not v.value)
+            run.instance("R15.7", mod.loc(call), f"seal_document: sealed copy carries `{f}`: {not empty}", ok=empty)
+            if not empty:
+                run.violation("R15.7", mod, seal.qualname, f"sealed Document(... {f}=...)", f"the document that receives the SEAL section also carries `{f}`, which the emitter writes after the sections: in the sealed file that text follows §SEAL::SEAL, the reader attaches it to the SEAL section, verification strips it with the section and recomputes a hash over text without it - VERIFIED in memory, INVALID on the untouched sealed file")
+    if n < 1:
+        raise AnalysisError("seal_document: the Document(...) that receives the SEAL section was not found")
+
+
 def check(run: Run) -> None:
     am = AstModel(run.project)
     mod = run.project.mod("core.sealer")
@@ -222,6 +247,7 @@ def check(run: Run) -> None:
 
     check_quote_str_only(run, "R15.6")
     check_bool_before_int(run, "R15.6", [("core.emitter", "emit_value")])
+    check_seal_is_last(run, am, seal)
 
     # ---------------------------------------------------------------- R15.5
     cli = run.project.mod("cli.main")
